@@ -685,6 +685,76 @@ Proof.
   destruct (Z.leb_spec 0 i); destruct (Z.ltb_spec i (s_len s)); cbn [andb]; try reflexivity. lia.
 Qed.
 
+(* one step of a program: [bind (prim ..) k h] *)
+Section Steps.
+Context {B : Type}.
+
+Lemma bind_load s i (k : Z -> M B) h : 0 <= i < s_len s -> wf_slice h s ->
+  bind (load s i) k h = k (znth (sl_get h s) i) h.
+Proof. intros Hi W. unfold bind. rewrite load_ok by assumption. reflexivity. Qed.
+
+Lemma bind_store s i v (k : unit -> M B) h : 0 <= i < s_len s ->
+  bind (store s i v) k h = k tt (sl_put h s i [v]).
+Proof. intros Hi. unfold bind. rewrite store_ok by assumption. reflexivity. Qed.
+
+Lemma bind_reslice s lo hi (k : gslice -> M B) h : 0 <= lo <= hi -> hi <= s_cap s ->
+  bind (reslice s lo hi) k h = k (mkSl (s_arr s) (s_off s + lo) (hi - lo) (s_cap s - lo)) h.
+Proof. intros H1 H2. unfold bind. rewrite reslice_ok by assumption. reflexivity. Qed.
+
+Lemma bind_gocopy dst src (k : Z -> M B) h :
+  bind (gocopy dst src) k h =
+  k (Z.min (s_len dst) (s_len src))
+    (sl_put h dst 0 (firstn (Z.to_nat (Z.min (s_len dst) (s_len src))) (sl_get h src))).
+Proof. reflexivity. Qed.
+
+Lemma bind_gomake n (k : gslice -> M B) h : 0 <= n < 9223372036854775808 ->
+  bind (gomake n) k h = k (mkSl (length h) 0 n n) (h ++ [repeat 0 (Z.to_nat n)]).
+Proof.
+  intros Hn. unfold bind, gomake.
+  destruct (Z.ltb_spec n 0); [lia|]. destruct (Z.leb_spec 9223372036854775808 n); [lia|]. reflexivity.
+Qed.
+
+Lemma bind_be_put n b v (k : unit -> M B) h : Z.of_nat n <= s_len b ->
+  bind (be_put n b v) k h = k tt (sl_put h b 0 (be_bytes n v)).
+Proof. intros Hn. unfold bind, be_put. destruct (Z.leb_spec (Z.of_nat n) (s_len b)); [reflexivity|lia]. Qed.
+
+Lemma bind_be_get n b (k : Z -> M B) h : Z.of_nat n <= s_len b ->
+  bind (be_get n b) k h = k (be_val (firstn n (sl_get h b))) h.
+Proof. intros Hn. unfold bind, be_get. destruct (Z.leb_spec (Z.of_nat n) (s_len b)); [reflexivity|lia]. Qed.
+
+End Steps.
+
+(* a fresh array: the old slices are untouched, the new one holds zeros *)
+Lemma wf_slice_grow h l s : wf_slice h s -> wf_slice (h ++ [l]) s.
+Proof.
+  intros (Ha & Ho & Hl & Hc & Hm). unfold wf_slice, arr_get in *.
+  rewrite app_length, app_nth1 by exact Ha. cbn [length]. repeat split; try lia.
+Qed.
+
+Lemma sl_get_grow h l s : wf_slice h s -> sl_get (h ++ [l]) s = sl_get h s.
+Proof. intros (Ha & _). unfold sl_get, arr_get. rewrite app_nth1 by exact Ha. reflexivity. Qed.
+
+Lemma arr_get_new h l : arr_get (h ++ [l]) (length h) = l.
+Proof. unfold arr_get. rewrite app_nth2 by lia. rewrite Nat.sub_diag. reflexivity. Qed.
+
+Lemma wf_slice_new h n : 0 <= n < 9223372036854775808 ->
+  wf_slice (h ++ [repeat 0 (Z.to_nat n)]) (mkSl (length h) 0 n n).
+Proof.
+  intros Hn. unfold wf_slice. cbn [s_arr s_off s_len s_cap]. rewrite arr_get_new.
+  unfold zlen. rewrite app_length, repeat_length. cbn [length]. lia.
+Qed.
+
+(* writing a whole fresh array *)
+Lemma sl_put_new h n d : zlen d = n -> 0 <= n ->
+  sl_put (h ++ [repeat 0 (Z.to_nat n)]) (mkSl (length h) 0 n n) 0 d = h ++ [d].
+Proof.
+  intros Hd Hn. unfold sl_put. cbn [s_arr s_off]. rewrite arr_get_new.
+  unfold arr_set. rewrite firstn_app, Nat.sub_diag, firstn_all. cbn [firstn]. rewrite app_nil_r.
+  f_equal. rewrite skipn_all2 by (rewrite app_length; cbn [length]; lia).
+  f_equal. unfold zsplice. cbn [Z.add Z.to_nat firstn app Nat.add].
+  rewrite skipn_all2 by (rewrite repeat_length; unfold zlen in Hd; lia). apply app_nil_r.
+Qed.
+
 (** * Stepping tactics for goals [prog h = ...] over generated code *)
 
 (* side conditions: arithmetic over slice fields and list lengths *)
@@ -700,3 +770,27 @@ Ltac go_unwrap :=
          | |- context [u32 ?x] => rewrite (u32_small x) by go_side
          | |- context [i32 ?x] => rewrite (i32_small x) by go_side
          end.
+
+(* one symbolic-execution step on a goal that mentions [bind prim k h] *)
+Ltac go_step :=
+  match goal with
+  | |- context [bind (bind ?m ?k) ?k' ?h] => rewrite (bind_assoc m k k' h)
+  | |- context [bind (ret ?a) ?k ?h] => rewrite (bind_ret_l a k h)
+  | |- context [bind (load ?s ?i) ?k ?h] => rewrite (bind_load s i k h) by go_side
+  | |- context [bind (store ?s ?i ?v) ?k ?h] => rewrite (bind_store s i v k h) by go_side
+  | |- context [bind (reslice ?s ?lo ?hi) ?k ?h] => rewrite (bind_reslice s lo hi k h) by go_side
+  | |- context [bind (gocopy ?d ?s) ?k ?h] => rewrite (bind_gocopy d s k h)
+  | |- context [bind (gomake ?n) ?k ?h] => rewrite (bind_gomake n k h) by go_side
+  | |- context [bind (be_put ?n ?b ?v) ?k ?h] => rewrite (bind_be_put n b v k h) by go_side
+  | |- context [bind (be_get ?n ?b) ?k ?h] => rewrite (bind_be_get n b k h) by go_side
+  end.
+
+(* case split on the first condition of the goal *)
+Ltac go_if :=
+  match goal with |- context [if ?c then _ else _] => destruct c eqn:? end.
+
+(* run a loop-free piece of generated code symbolically: primitive steps, one
+   case split per condition, beta/iota/zeta in between; branches whose
+   conditions contradict each other are closed by lia *)
+Ltac go_run :=
+  repeat first [ go_step | go_if; try lia | progress cbv beta iota zeta ].
